@@ -207,7 +207,11 @@ func c08ApplyQuick(c *c08Case, d int, nclass int) int {
 // c08QuickExtras: combinations of two deviations that the quick tier adds to the single ones, each the smallest
 // shape in which a known class shows: CRLF with an include directive;
 // a lower-case commodity followed by a comment, by a cost, by a CRLF line end.
-var c08QuickExtras = []int{37*1000 + c08NDev + 11, 25*1000 + 30, 25*1000 + 27, 25*1000 + 37}
+// a posting comment with a wide-character slot under the declaration of ANOTHER account (the
+// undeclared-account diagnostic carries the posting's range, which ends behind the comment);
+// a comment on the second posting under the declaration of the first posting's account.
+var c08QuickExtras = []int{37*1000 + c08NDev + 11, 25*1000 + 30, 25*1000 + 27, 25*1000 + 37,
+	30*1000 + c08NDev + 4, 33*1000 + c08NDev + 4, 35*1000 + c08NDev + 2}
 
 // c08ChooseList: quick-tier derivation restricted to the listed deviations.
 func c08ChooseList(devs []int, nclass int) *c08Case {
